@@ -101,6 +101,22 @@ CLAIMED = {
              'universe; is_identifier abstracted; locking is C15. All theorems closed under the global context.',
         technique='Coq invariant proof over creation histories (memo keyed by Python ==) + differential correspondence',
         design='5/C17'),
+    'C18': dict(
+        text='Machine-checked (Coq 8.16.1): the override reduction beartype applies lazily at every node (first '
+             'reducer, recursion guard below a replacement, union flattening) is modelled as [effective]; whenever '
+             'the replacements are stable it is proved equal, for every hint of the grammar at every depth, to one '
+             'simultaneous hand-rewriting pass [subst1], hence the check under the configuration is the check of the '
+             'hand-rewritten hint for every object, sampler mode and draw, the generated code computes it, and '
+             'objects satisfying the rewritten hint are never rejected; the numeric tower is proved stable with '
+             'float = float|int and complex = complex|float|int; chained replacements are proved to differ from '
+             'one pass (stability is necessary). Tied to the code on every run: verdict/trace/generated-code '
+             'structure under BeartypeConf(hint_overrides, is_pep484_tower) vs the model, vs the default '
+             'configuration on hints rewritten by an independent Python pass, and verdict invariance under four '
+             'violation_* settings on five entry points; the conf attributes read on the code-generation path are scanned.',
+        note=CORE_NOTE + ' Override keys: classes and List[int]; the violation-type clause is decided by '
+             'differential execution plus the attribute scan (the model has no violation-type input at all).',
+        technique='Coq proof by induction on hints (guarded lazy reduction = simultaneous substitution under stability) + shared-core generator proof + differential correspondence',
+        design='5/C18'),
     'C04': dict(
         text='Machine-checked (Coq 8.16.1): for every signature over the five parameter kinds with pairwise '
              'distinct names and every call that CPython\'s binding rule accepts, the values selected by the '
